@@ -67,9 +67,9 @@ func c04PagedFamily(e *Emitter, thorough bool) {
 		pairs = append(pairs, pr{1, 1152, 1, 1152}, pr{2, 1152, 0, 1152}, pr{3, 1152, 3, 1152}, pr{0, 1152, 3, 1152})
 		big = append(big, pr{7, 1152, 7, 1152}, pr{7, 4096, 6, 1152}, pr{5, 1152, 7, 2048})
 	}
-	pages := []int{1, 7, 16, 24, 100}
+	pages := []int{7, 24, 100}
 	if thorough {
-		pages = append(pages, 3, 15, 17, 32, 48, 1000)
+		pages = append(pages, 1, 3, 15, 16, 17, 32, 48, 1000)
 	}
 	emitLong := func(cfg *c04Cfg, name string) {
 		n := 4*c04TripBudget(cfg) + 2
@@ -81,9 +81,9 @@ func c04PagedFamily(e *Emitter, thorough bool) {
 	}
 	for _, p := range pairs {
 		s := c04SzxSize(min2(p.a, p.b))
-		sizes := []int{s + 1, 2*s + 1, 3*s + 5, 7 * s}
+		sizes := []int{s + 1, 3*s + 5, 7 * s}
 		if thorough {
-			sizes = append(sizes, s, 2*s, 5*s-1, 300)
+			sizes = append(sizes, s, 2*s, 2*s+1, 5*s-1, 300)
 		}
 		for _, pg := range pages {
 			for fl := 0; fl <= 4; fl++ {
@@ -157,12 +157,11 @@ func c04DeadlineFamily(e *Emitter, thorough bool) {
 	}
 	bases := []base{
 		{"upload", 2, 64, 5, false, 0, 0},
-		{"upload-put", 3, 75, 5, false, 0, 0},
 		{"download", 1, 0, 75, true, 0, 0},
 		{"both", 3, 40, 40, true, 0, 0},
 	}
 	if thorough {
-		bases = append(bases, base{"upload-szx", 2, 100, 5, false, 1, 0}, base{"upload-szx2", 2, 100, 5, false, 0, 1},
+		bases = append(bases, base{"upload-put", 3, 75, 5, false, 0, 0}, base{"upload-szx", 2, 100, 5, false, 1, 0}, base{"upload-szx2", 2, 100, 5, false, 0, 1},
 			base{"download-szx", 1, 0, 100, true, 1, 0}, base{"post-big-response", 2, 5, 40, false, 0, 0})
 	}
 	ages := [][]c04Ev{{{'A', 3700}}, {{'A', 1700}}, {{'A', 1700}, {'A', 1700}, {'A', 1700}}, {{'A', 3700}, {'A', 3700}, {'A', 3700}}}
@@ -191,6 +190,9 @@ func c04DeadlineFamily(e *Emitter, thorough bool) {
 					for si, sw := range sweeps {
 						if dl == 0 && (si != 0 || (!thorough && ai > 1)) {
 							continue // without a deadline: Timed.v's ground, a few cases (known class 11 among them)
+						}
+						if !thorough && si != 0 && ai != 0 && ai != 3 {
+							continue
 						}
 						// a second gap, later in the exchange (every gap is short, their sum is not)
 						for _, second := range []bool{false, true} {
